@@ -369,6 +369,16 @@ class Interp:
                 self.ctx.oblige("attr_defined", v.cond, st, node, attr, SAFETY_TAG)
                 return v.val
             return v
+        phi = self.ctx.__dict__.get("phi", {}).get(ref.oid)
+        if phi is not None:
+            c, a, b = phi
+            va, vb = self.read_field(st, a, attr, node), self.read_field(st, b, attr, node)
+            if isinstance(va, Ref) and isinstance(vb, Ref) and va.oid != vb.oid:
+                v = self.phi_object(st, c, va, vb)
+            else:
+                v = ite(c, va, vb)
+            st.heap[ref.oid] = st.heap[ref.oid].with_field(attr, v)
+            return v
         if rec.lazy:
             if self.ctx.registry.lookup(self.ctx.relpath, "%s.%s" % (rec.cls, attr)) is not None:
                 return FuncV("method", attr, ref)
@@ -616,7 +626,25 @@ class Interp:
         s1.pc.append(c)
         s2 = st.copy()
         s2.pc.append(z3.Not(c))
-        return ite(c, self.ev(node.body, s1), self.ev(node.orelse, s2))
+        a, b = self.ev(node.body, s1), self.ev(node.orelse, s2)
+        if isinstance(a, Ref) and isinstance(b, Ref) and a.oid != b.oid:
+            for s_ in (s1, s2):            # objects first touched while evaluating a branch exist in the main state too
+                for o_, r_ in s_.heap.items():
+                    st.heap.setdefault(o_, r_)
+            return self.phi_object(st, c, a, b)
+        return ite(c, a, b)
+
+    def phi_object(self, st, c, a, b):
+        """`x if c else y` over two objects of the same record class: a read-only object whose fields are ite(c, x.f, y.f), built on demand."""
+        ra, rb = st.heap.get(a.oid), st.heap.get(b.oid)
+        if not (isinstance(ra, ObjRec) and isinstance(rb, ObjRec) and ra.cls == rb.cls):
+            raise ToolLimit("conditional expression over two different non-record objects")
+        phis = self.ctx.__dict__.setdefault("phi", {})
+        oid = self.ctx.named_oid("phi(%s|%s|%s)" % (c.get_id() if hasattr(c, "get_id") else c, ra.name, rb.name))
+        phis[oid] = (c, a, b)
+        if oid not in st.heap:
+            st.heap[oid] = ObjRec(ra.cls, {}, name="ite(%s, %s)" % (ra.name, rb.name), lazy=True, writable=False)
+        return Ref(oid)
 
     def ev_BinOp(self, node, st):
         a = self.ev(node.left, st)
@@ -905,8 +933,15 @@ class Interp:
         for ci, cut in enumerate(cuts):
             if txt is None:
                 txt = ast.unparse(s)
-            if not txt.startswith(cut["before"]):
+            if cut.get("before_re"):
+                import re as _re
+                if not _re.match(cut["before_re"], txt):
+                    continue
+            elif not txt.startswith(cut["before"]):
                 continue
+            if st.locals.get("$cut%d" % ci):
+                continue               # a cut fires once per path: at the FIRST statement matching its anchor
+            st.locals["$cut%d" % ci] = True
             used = self.ctx.__dict__.setdefault("cuts_used", set())
             used.add(ci)
             from .loops import _oblige_conjuncts
@@ -1084,6 +1119,8 @@ class Interp:
         raise ToolLimit("assignment target %s" % type(t).__name__)
 
     def check_store_allowed(self, rec, attr, st, node):
+        if rec.name.startswith("ite("):
+            raise ToolLimit("store through a conditional object (%s)" % rec.name)
         if rec.fresh or not rec.lazy:
             return
         if self.ctx.contract.field_writable(rec.name, attr):
